@@ -6,7 +6,8 @@
 (*      post = Apply(cmd, pre)   and   exit = ExitOf(cmd, pre)                           *)
 (* and the report the linter prints is the one Workflow derives from the declarations.  *)
 (*   e.cmd [kind, files, cop, lic]   e.pre / e.post [info : file -> [cop, lic], present,*)
-(*   missing, unused, nocop, nolic]   e.exit   e.crash                                  *)
+(*   missing, unused, nocop, nolic, glob]   e.exit   e.crash                            *)
+(* (info is what the linter SEES: own declarations aggregated with dep5 / REUSE.toml)   *)
 EXTENDS Workflow, IOUtils, TLCExt
 Tr == ndJsonDeserialize(IOEnv.TRACE_FILE)
 VARIABLE l
@@ -26,7 +27,13 @@ Verdict(e) ==
        p  == SeqSet(e.pre.present)
        i2 == InfoOfObs(e.post)
        p2 == SeqSet(e.post.present)
+       g  == e.pre.glob
+       g2 == e.post.glob
    IN  IF e.crash # "" THEN "crash"
+       ELSE IF c.kind = "convert-dep5" /\ e.exit # ExitOfG(c, i, p, g) THEN "C17.exit-status"
+       ELSE IF c.kind = "convert-dep5" /\ g2 # ApplyGlob(c, g) THEN "C17.declaration-not-moved-from-dep5-to-REUSE.toml"
+       ELSE IF c.kind = "convert-dep5" /\ (i2 # i \/ p2 # p) THEN "C17.attribution-changed-by-conversion"
+       ELSE IF c.kind # "convert-dep5" /\ g2 # g THEN "C15.command-moved-the-project-wide-declaration"
        ELSE IF DOMAIN i2 # DOMAIN i THEN "C03.set-of-covered-files-changed-by-a-command"
        ELSE IF ~ReportOK(e.post) THEN "C01.report-is-not-the-one-the-declarations-imply"
        ELSE IF c.kind = "lint" /\ e.exit # ExitOf(c, i, p) THEN "C01.exit-status-is-not-the-verdict"
@@ -41,7 +48,7 @@ Verdict(e) ==
        ELSE IF c.kind \in {"download", "download-all"} /\ e.exit # ExitOf(c, i, p) THEN "C19.exit-status"
        ELSE ""
 KnownFinding(e, c) == ""
-TInit == l = 1 /\ info = <<>> /\ present = {} /\ hist = <<>> /\ start = <<>>
+TInit == l = 1 /\ info = <<>> /\ present = {} /\ hist = <<>> /\ start = <<>> /\ glob = "none"
 TNext == /\ l <= Len(Tr)
          /\ LET e == Tr[l]
                 c == Verdict(e)
